@@ -2,6 +2,7 @@ import Driver.Util
 import Driver.C17
 import Driver.Tzdb
 import TemporalModel.Model.CalGlue
+import TemporalModel.Model.HebrewGlue
 import TemporalModel.Model.Format
 import TemporalModel.Spec.CalLaws
 import TemporalModel.Spec.Grammar
@@ -62,6 +63,25 @@ def calRt (cal : CalId) (iso : IsoDate) : String :=
     let mark (r : String) : String := if r = "1" then r else if f.year ≤ 0 then r ++ "@y<=0" else r
     s!"code={mark (route cal iso a)} month={mark (route cal iso b)} era={e} iso=1"
 
+/-- `cal_rt` for `hebrew` as the code computes it (Model/Hebrew.lean + the crate's field resolution). -/
+def calRtHeb (iso : IsoDate) : Out String := do
+  let f ← hebrewFieldsChecked (Greg.dayNumber iso.year iso.month iso.day)
+  let routeH (p : CalPartial) : String :=
+    match plainDateFromPartialHeb p (some .reject) with
+    | .ok r => if r = iso then "1" else "0"
+    | .err k => k.name
+    | .panic => "panic"
+  let shifted : Bool := f.month ≠ (f.monthCode.num : Int)
+  let mark (r : String) (byMonth : Bool) : String :=
+    if r = "1" then r
+    else r ++ (if f.day = 0 then "@day0" else "") ++ (if byMonth && shifted then "@shift" else "") ++
+         (if f.year ≤ 0 then "@y<=0" else "")
+  let a := routeH ⟨none, none, some f.year, none, some f.monthCode, some f.day⟩
+  let b := routeH ⟨none, none, some f.year, some f.month, none, some f.day⟩
+  let e0 := routeH ⟨f.era, f.eraYear, none, none, some f.monthCode, some f.day⟩
+  let e : String := if e0 != "1" && f.day == 0 then e0 ++ "@day0" else e0
+  pure s!"code={mark a false} month={mark b true} era={e} iso=1"
+
 /-- The law `cal_rt` states, whatever the code does. -/
 def calRtSpec (cal : CalId) : String :=
   s!"code=1 month=1 era={if (reportedEras cal).isEmpty then "-" else "1"} iso=1"
@@ -82,23 +102,42 @@ def calFromStr (cs : List Char) : Out CalId :=
   | some c => (match c with | none => .ok .iso8601 | some v => calFromId v)
   | none => calFromId cs
 
+/-- The reported fields: the modelled calendars of Model/Calendar.lean, and `hebrew` (Model/Hebrew.lean, as coded, in
+    a build with debug assertions - which is how the harness is built). -/
+def fieldsX (cal : CalId) (iso : IsoDate) : Option (Out CalFields) :=
+  if cal = .hebrew then some (hebrewFieldsChecked (Greg.dayNumber iso.year iso.month iso.day))
+  else (fields cal iso).map .ok
+
 def handleCal (toks : List String) : Option String :=
   match toks with
   | ["cal_fields", cal, y, m, d] => do
     let cal ← calId? cal; let y ← int? y; let m ← int? m; let d ← int? d
     some (renderOut (do
       let iso ← isoOf y m d
-      match fields cal iso with
-      | some f => pure f.render
+      match fieldsX cal iso with
+      | some f => do let f ← f; pure f.render
       | none => pure "unmodelled"))
   | ["cal_next", cal, y, m, d] => do
     let cal ← calId? cal; let y ← int? y; let m ← int? m; let d ← int? d
     some (renderOut (do
       let iso ← isoOf y m d
       let nx ← nextIso iso
-      match fields cal iso, fields cal nx with
-      | some a, some b => pure s!"{a.render} | {b.render}"
+      match fieldsX cal iso, fieldsX cal nx with
+      | some a, some b => do let a ← a; let b ← b; pure s!"{a.render} | {b.render}"
       | _, _ => pure "unmodelled"))
+  | ["cal_hfrom", "hebrew", era, ey, y, m, c, d, ov] => do
+    let p ← calPartial? [era, ey, y, m, c, d]
+    let ov ← Overflow.ofName? ov
+    some (renderOut (do
+      let p ← p
+      let r ← plainDateFromPartialHeb p (some ov)
+      pure r.render))
+  | ["cal_wc", _, c1, c2, y, m, d] => do
+    -- changing the calendar keeps the ISO fields / the instant: a law with a constant expected outcome (for a date
+    -- that exists)
+    let _ ← calId? c1; let _ ← calId? c2
+    let y ← int? y; let m ← int? m; let d ← int? d
+    some (renderOut (do let _ ← isoOf y m d; pure "same"))
   | ["cal_law", _, _, _, _] => some "fed"
   | "cal_law_chk" :: cal :: y :: m :: d :: "|" :: rest => do
     let _ ← calId? cal; let _ ← int? y; let _ ← int? m; let _ ← int? d
@@ -119,7 +158,7 @@ def handleCal (toks : List String) : Option String :=
     | _ => some "bad outcome"
   | ["cal_rt", cal, y, m, d] => do
     let cal ← calId? cal; let y ← int? y; let m ← int? m; let d ← int? d
-    some (renderOut (do let iso ← isoOf y m d; pure (calRt cal iso)))
+    some (renderOut (do let iso ← isoOf y m d; if cal = .hebrew then calRtHeb iso else pure (calRt cal iso)))
   | ["cal_rt_spec", cal, y, m, d] => do
     let cal ← calId? cal; let y ← int? y; let m ← int? m; let d ← int? d
     some (renderOut (do let _ ← isoOf y m d; pure (calRtSpec cal)))
